@@ -3,7 +3,7 @@
 model:     Analyzer.tla -- the file pass, the kind-checking walk (a fork of the evaluator, as in the code), symbol
            warnings and the source map.  AnalyzerProps.tla states C05 over it; MC_C06 states C06 over the Analyzer
            and Abasic models together.
-generate:  MC_Analyzer enumerates every file of <= N lines over an 18-shape line alphabet; MC_C06 every writable
+generate:  MC_Analyzer enumerates every file of <= N lines over an 20-shape line alphabet; MC_C06 every writable
            one-line program over a 17-token alphabet; each row is run through the real analyzer (and interpreter).
 validate:  random files (line shapes, token soup, raw UTF-8) analysed by the real analyzer are judged by TLC
            (Trace_Analyzer); generated multi-line programs the checker accepts are run under several reply scripts."""
@@ -69,7 +69,7 @@ def run_c05(pid, tier, seed):
            "files_enumerated_and_replayed": rep["counters"].get("rows", 0), "random_files_validated_by_tlc": validated,
            "deep_nesting_probes_in_child_processes": dn,
            "evaluations": rep["counters"].get("rows", 0) + validated + dn, "distinct_nontrivial": rep["counters"].get("rows_nontrivial", 0),
-           "rule": f"every file of <= {3 if q else 4} lines over the 18-shape line alphabet of MC_Analyzer.tla; non-trivial = analysis reports at least one message",
+           "rule": f"every file of <= {3 if q else 4} lines over the 20-shape line alphabet of MC_Analyzer.tla; non-trivial = analysis reports at least one message",
            "unexplained_divergences": unexplained, "model_invariants_checked": ["C05Holds"], "samples": rep["samples"][:5], "exhaustive": True}
     c.finish(pid, tier, seed, t0, cov, violations, ASSUMPTIONS)
 
